@@ -5,66 +5,53 @@
    Statements only; each is closed by [exact] of a lemma from Proofs/. *)
 From ZV Require Import Base.Prelude Model.Scan Proofs.ScanProofs.
 
-(* The statement at full strength is FALSE of the code as it is: `search foo`
-   over the single-value frame {a:[{foo:1}]} compiles to a buffer filter that
-   rejects the frame although the evaluator accepts the value (the field-name
-   finder inspects only the dotted names of the top-level record type, the
-   evaluator's walk also reaches record types below arrays). *)
-Theorem C04_bufferfilter_sound_refuted :
-  exists e b (fr : frame),
-    compile_bf e = Some b /\
-    (exists id t v, In (id, t, v) fr /\ forall oth lit_oth, eval oth lit_oth e t v = true) /\
-    bf_eval b fr = false.
-Proof. exact bufferfilter_refuted. Qed.
-Print Assumptions C04_bufferfilter_sound_refuted.
-
-Theorem C04_scan_is_filter_refuted :
-  exists e (frs : list frame), forall oth lit_oth,
-    scan oth lit_oth e frs <> spec oth lit_oth e frs.
-Proof. exact scan_refuted. Qed.
-Print Assumptions C04_scan_is_filter_refuted.
-
-(* What does hold (partial: frames whose record types hide no record type
-   below an array): for every filter expression of the modelled language
-   (keyword and literal searches, field == literal, literal in field, and/or/not,
-   arbitrary opaque sub-expressions), every compiled buffer filter and every
-   frame, a frame holding a value the filter accepts passes the buffer filter. *)
-Theorem C04_bufferfilter_sound_partial :
+(* CompileBufferFilter's contract ("returns true for any byte slice containing
+   the ZNG encoding of a record matching e"): for every filter expression of the
+   modelled language (keyword searches over this or a field path, literal
+   searches, field == literal, literal in field, and/or/not, arbitrary opaque
+   sub-expressions incl. searches over computed expressions), every buffer filter
+   compiled from it and every frame: a frame holding a value the filter accepts
+   passes the buffer filter. *)
+Theorem C04_bufferfilter_sound :
   forall (oth : nat -> ty -> val -> tv3) (lit_oth : expr -> ty -> val -> tv3) e b (fr : frame),
     compile_bf e = Some b ->
-    frame_visible fr ->
     (exists id t v, In (id, t, v) fr /\ eval oth lit_oth e t v = true) ->
     bf_eval b fr = true.
-Proof. exact bufferfilter_sound_partial. Qed.
-Print Assumptions C04_bufferfilter_sound_partial.
-
-(* With the proposed repair of FieldNameFinder.Find (answer true when the record
-   type hides a record type below an array) the statement holds for every frame. *)
-Theorem C04_bufferfilter_sound_with_proposed_fix :
-  forall (oth : nat -> ty -> val -> tv3) (lit_oth : expr -> ty -> val -> tv3) e b (fr : frame),
-    compile_bf e = Some b ->
-    (exists id t v, In (id, t, v) fr /\ eval oth lit_oth e t v = true) ->
-    bf_eval_with fnf_find_fixed b fr = true.
-Proof. exact bufferfilter_sound_with_fix. Qed.
-Print Assumptions C04_bufferfilter_sound_with_proposed_fix.
+Proof. exact bufferfilter_sound. Qed.
+Print Assumptions C04_bufferfilter_sound.
 
 (* Hence the scanner (gate per frame, evaluator per value) returns exactly the
    values the evaluator accepts, in order, for ANY segmentation of the stream
    into frames (frame threshold, end-of-stream positions, compression and
    thread count only change the segmentation). *)
-Theorem C04_scan_is_filter_partial :
+Theorem C04_scan_is_filter :
   forall (oth : nat -> ty -> val -> tv3) (lit_oth : expr -> ty -> val -> tv3) e frs,
-    Forall frame_visible frs ->
     scan oth lit_oth e frs = spec oth lit_oth e frs.
-Proof. exact scan_is_filter_partial. Qed.
-Print Assumptions C04_scan_is_filter_partial.
+Proof. exact scan_is_filter. Qed.
+Print Assumptions C04_scan_is_filter.
 
-(* Unconditionally, the pushed-down filter never adds a value. *)
-Theorem C04_scan_subset :
-  forall (oth : nat -> ty -> val -> tv3) (lit_oth : expr -> ty -> val -> tv3) e frs x,
-    In x (scan oth lit_oth e frs) -> In x (spec oth lit_oth e frs).
-Proof. exact scan_subset_spec. Qed.
-Print Assumptions C04_scan_subset.
+Theorem C04_scan_segmentation_independent :
+  forall (oth : nat -> ty -> val -> tv3) (lit_oth : expr -> ty -> val -> tv3) e frs1 frs2,
+    flat_map frame_vals frs1 = flat_map frame_vals frs2 ->
+    scan oth lit_oth e frs1 = scan oth lit_oth e frs2.
+Proof. exact scan_segmentation_independent. Qed.
+Print Assumptions C04_scan_segmentation_independent.
+
+(* The field-name finder sees every record type occurring anywhere inside the
+   top-level type, hence every type the evaluator's walk (from the value or from
+   the value at a field path) can reach. *)
+Theorem C04_finder_sees_nested_types :
+  forall term t' t,
+    subty t' t -> search_type term t' = true ->
+    search_type term t || find_hidden term t = true.
+Proof. exact subty_find_below. Qed.
+Print Assumptions C04_finder_sees_nested_types.
+
+Theorem C04_walk_and_paths_stay_inside :
+  (forall v t t' v', In (t', v') (walk t v) -> subty t' t) /\
+  (forall path t v t' v', deref path t v = Some (t', v') -> subty t' t).
+Proof. exact (conj walk_subty deref_subty). Qed.
+Print Assumptions C04_walk_and_paths_stay_inside.
 
 (* Finder.Next(text) > -1 is the substring relation, which composes along the
    nesting of ZNG encodings (used by all of the above). *)
